@@ -385,7 +385,19 @@ def stage(ctx):
             again = rerun(ctx, hb, work, sid, s, procs)
             if again is None:
                 continue
-            f2 = judge(ctx, sid, again, model, None, count=False)
+            # the re-run has servers of its own (other ports): the model decides on THAT client's DC table
+            model2 = dict(model)
+            if spec_fields(s["spec"]).get("kind") != "multi":
+                mc2, mo2 = work + "/model_cases_rerun.txt", work + "/model_out_rerun.txt"
+                with open(mc2, "w", errors="surrogateescape") as f:
+                    for l in table_lines(ctx, work):
+                        f.write(l + "\n")
+                    f.write("M\tm%s\t%s\t%s\t%s\n" % (sid, again["dcs"], again["code"], again["text"]))
+                    f.write("E\te%s\t%s\t%s\n" % (sid, again["code"], again["text"]))
+                C.run_model("C17", mc2, mo2)
+                for fl in C.read_tsv(mo2):
+                    model2[fl[0]] = fl[1:]
+            f2 = judge(ctx, sid, again, model2, None, count=False)
             if f2 is not None and f2["what"] == fail["what"]:
                 confirmed = f2
                 break
